@@ -278,3 +278,40 @@ pub fn flush_journal_hooked(index: &HnswIndex, now_ms: u64, hook: &dyn Fn(usize)
     let out = journal.borrow().clone();
     Ok(out)
 }
+
+/// `flush_with` whose node callback requests the documented cooperative stop
+/// (`Ok(false)`, nothing written for that node) at its `stop_at`-th call.
+/// Returns the writes that happened and whether the stop was reached. No
+/// purge afterwards (the flush did not complete).
+pub fn flush_journal_stopping(index: &HnswIndex, now_ms: u64, stop_at: usize) -> Result<(Vec<Write>, bool), String> {
+    let journal: Rc<RefCell<Vec<Write>>> = Rc::new(RefCell::new(Vec::new()));
+    let calls: Rc<RefCell<usize>> = Rc::new(RefCell::new(0));
+    let stopped: Rc<RefCell<bool>> = Rc::new(RefCell::new(false));
+    let (j1, j2, j3) = (journal.clone(), journal.clone(), journal.clone());
+    let (c1, s1) = (calls.clone(), stopped.clone());
+    vcore::util::now(index.flush_with(
+        now_ms,
+        move |id, data| {
+            let c = *c1.borrow();
+            *c1.borrow_mut() = c + 1;
+            if c == stop_at {
+                *s1.borrow_mut() = true;
+                return std::future::ready(Ok::<bool, BoxError>(false));
+            }
+            j1.borrow_mut().push(Write::Node(id, data));
+            std::future::ready(Ok::<bool, BoxError>(true))
+        },
+        move |data| {
+            j2.borrow_mut().push(Write::Ids(data));
+            std::future::ready(Ok::<(), BoxError>(()))
+        },
+        move |data| {
+            j3.borrow_mut().push(Write::Meta(data));
+            std::future::ready(Ok::<(), BoxError>(()))
+        },
+    ))
+    .map_err(|e| format!("flush_with failed: {e}"))?;
+    let out = journal.borrow().clone();
+    let st = *stopped.borrow();
+    Ok((out, st))
+}
